@@ -18,6 +18,69 @@ let rec dump e =
   | NCompl a -> Printf.sprintf "N%s(%s)" i (dump a)
   | NUnion l -> Printf.sprintf "U%s(%s)" i (String.concat "," (List.map dump l))
   | NInter l -> Printf.sprintf "I%s(%s)" i (String.concat "," (List.map dump l))
+(* parser of a structural dump (the implementation's own term, ids included) back into a model term;
+   nullable flag and derivative classes are not printed and are not used by sub_terms / leaves *)
+let parse_dump (str : string) : re =
+  let n = String.length str in
+  let pos = ref 0 in
+  let peek () = if !pos < n then str.[!pos] else '\000' in
+  let adv () = incr pos in
+  let expect ch = if peek () <> ch then failwith ("dump: expected " ^ String.make 1 ch) else adv () in
+  let number () =
+    let st0 = !pos in
+    while !pos < n && str.[!pos] >= '0' && str.[!pos] <= '9' do adv () done;
+    if !pos = st0 then failwith "dump: number";
+    n_of_int (int_of_string (String.sub str st0 (!pos - st0))) in
+  let mk i k = Node (i, false, pnew, k) in
+  let rec term () =
+    let kind = peek () in adv ();
+    let i = number () in
+    match kind with
+    | 'E' -> mk i NEmpty
+    | 'e' -> mk i NEps
+    | 'R' -> expect '['; let a = number () in expect ','; let b_ = number () in expect ']'; mk i (NRange (a, b_))
+    | 'C' -> expect '('; let a = term () in expect ','; let b_ = term () in expect ')'; mk i (NConcat (a, b_))
+    | 'N' -> expect '('; let a = term () in expect ')'; mk i (NCompl a)
+    | 'L' ->
+        expect '{';
+        let st0 = !pos in
+        while peek () <> '}' do adv () done;
+        let rs = String.sub str st0 (!pos - st0) in
+        expect '}';
+        let r =
+          (try Scanf.sscanf rs "LoopRange(%d,Some(%d))" (fun a b_ -> LR (n_of_int a, Some (n_of_int b_)))
+           with _ -> Scanf.sscanf rs "LoopRange(%d,None)" (fun a -> LR (n_of_int a, None))) in
+        expect '('; let a = term () in expect ')'; mk i (NLoop (a, r))
+    | 'U' | 'I' ->
+        expect '(';
+        let items = ref [] in
+        if peek () <> ')' then begin
+          items := [term ()];
+          while peek () = ',' do adv (); items := term () :: !items done
+        end;
+        expect ')';
+        let l = List.rev !items in
+        mk i (if kind = 'U' then NUnion l else NInter l)
+    | _ -> failwith "dump: constructor"
+  in
+  let t = term () in
+  if !pos <> n then failwith "dump: trailing characters";
+  t
+(* ids erased: two dumps that differ only in the hash-consing ids *)
+let erase_ids (str : string) : string =
+  let bf = Buffer.create (String.length str) in
+  let n = String.length str in
+  let i = ref 0 in
+  while !i < n do
+    let ch = str.[!i] in
+    Buffer.add_char bf ch;
+    incr i;
+    if (ch = 'E' || ch = 'e' || ch = 'R' || ch = 'C' || ch = 'N' || ch = 'L' || ch = 'U' || ch = 'I')
+       && !i < n && str.[!i] >= '0' && str.[!i] <= '9' && (!i < 2 || str.[!i - 2] <> 'p')
+    then (while !i < n && str.[!i] >= '0' && str.[!i] <= '9' do incr i done)
+  done;
+  Buffer.contents bf
+let ids_line l = Printf.sprintf "%d %s" (List.length l) (String.concat "," (List.map (fun r -> sn (rid r)) l))
 let cid_of = function "c" -> CComp | t -> CInt (nat_of_int (int_of_string t))
 let cid_show = function CComp -> "c" | CInt i -> string_of_int (int_of_nat i)
 let word_show w = String.concat " " (string_of_int (List.length w) :: List.map sn w)
@@ -80,10 +143,10 @@ let stmt st toks =
   | "subterms" -> let (a, _) = term st c in
       (* a fixed fuel: whatever sub_terms_fuel returns is what sub_terms returns (C07c_sub_terms_fuel_some) *)
       let l = get (sub_terms_fuel fuel a) in
-      Printf.sprintf "%d %s" (List.length l) (String.concat "," (List.map (fun r -> sn (rid r)) l))
+      ids_line l ^ " @ " ^ dump a
   | "leaves" -> let (a, _) = term st c in
       let l = get (leaves_fuel fuel a) in
-      Printf.sprintf "%d %s" (List.length l) (String.concat "," (List.map (fun r -> sn (rid r)) l))
+      ids_line l ^ " @ " ^ dump a
   | "reinfo" -> let (a, _) = term st c in let k = ci c in
       let cids = List.init k (fun _ -> cid_of (next c)) in
       Printf.sprintf "empty=%s n=%d valid=%s" (b (re_is_empty a)) (int_of_nat (re_num_deriv_classes a))
@@ -289,15 +352,29 @@ let oracle toks impl model =
            if not (has "good=T") then bad i s "a constructor / parser handed out a string that is not is_good"
            else if not (has "mem=T") then bad i s "the string is not a member of its own str.to_re language"
            else if not (has "ascii=T") then bad i s "Display printed a non-ASCII character"
-           else if r <> mr then bad i s ("result differs from the verified model: " ^ mr)
+           else if erase_ids r <> erase_ids mr then bad i s ("result differs from the verified model: " ^ mr)
+           (* equal up to hash-consing ids (not observable through the API): a broken tie, not a failing input *)
        | "replre" | "replreall" ->
            (* the SMT-LIB value is unique (C10_replace_re_complete / C10_replace_re_all_complete) and the
               model is proved to return it: any other answer violates the property *)
            if r <> mr && mr <> "PANIC" then
              bad i s ("result [" ^ r ^ "] is not the SMT-LIB value [" ^ mr ^ "] (leftmost, then shortest match)")
-       | "subterms" | "leaves" | "reinfo" ->
-           (* determined by the term (whose structure and ids are compared by every constructor
-              statement): sub-terms each once in breadth-first order, the atomic ones, the class ids *)
+       | "subterms" | "leaves" ->
+           (* judged on the implementation's own term: its dump is parsed back and the verified
+              sub_terms / leaves (C07c) are evaluated on it; a difference from the model's line that is
+              only a renumbering of ids stays a broken correspondence *)
+           (match String.index_opt r '@' with
+            | Some k when k >= 1 && k + 2 <= String.length r ->
+                let ids = String.trim (String.sub r 0 k) in
+                let dmp = String.sub r (k + 2) (String.length r - k - 2) in
+                (match (try Some (parse_dump dmp) with _ -> None) with
+                 | Some t ->
+                     let expect = ids_line (get ((if op = "subterms" then sub_terms_fuel else leaves_fuel) fuel t)) in
+                     if ids <> expect then bad i s ("result [" ^ ids ^ "] but the structure of the term itself gives [" ^ expect ^ "]")
+                 | None -> if r <> mr && mr <> "PANIC" then bad i s ("unparsable dump; result [" ^ r ^ "] model [" ^ mr ^ "]"))
+            | _ -> if r <> mr && mr <> "PANIC" then bad i s ("result [" ^ r ^ "] but the term's structure gives [" ^ mr ^ "]"))
+       | "reinfo" ->
+           (* no ids involved: emptiness, number of derivative classes, validity of class ids *)
            if r <> mr && mr <> "PANIC" then bad i s ("result [" ^ r ^ "] but the term's structure gives [" ^ mr ^ "]")
        | "same" -> if r <> "T T" then bad i s ("the same construction gave a different term: " ^ r)
        | "differ" -> if r <> "F F" then bad i s ("terms that must differ compare equal: " ^ r)
